@@ -183,7 +183,7 @@ def check_c22(tier):
         return (P.gen_workload("c22", s + 500000, "quick") for s in P.seeds_for("C22"))
 
     return generic("C22", tier, P.oracle_c22, P.A_PSIM + ["each counter rule is compared with a sibling rule without the counter (same body) of the same run"],
-                   interp, comp, k_quick=12, k_thorough=40, ncomp_quick=3, ncomp_thorough=24)
+                   interp, comp, k_quick=12, k_thorough=40, ncomp_quick=8, ncomp_thorough=32, compiled_share=0.4)
 
 
 def check_c10(tier):
